@@ -699,7 +699,49 @@ def end_to_end(ctx):
                       "the Coq specification joint_expect could not be evaluated", no_input=True)
         bl = None
 
-    stats = {"exact_ok": 0, "sample_limit_missing": 0, "timeouts": 0}
+    # the generated program of each case, dumped through Polar's own parser: gives the float residues of
+    # the implicit last probabilities and the exact law of the program Polar actually analyses
+    dumps = lib.run_tasks([{"kind": "bif", "id": c["id"], "text": c["text"],
+                            "queries": [{"type": c["q"]["type"], "q": c["q"]["q"]}], "timeout": 60} for c in cases],
+                          timeout=60)
+    for c, d in zip(cases, dumps):
+        c["float_last"] = []
+        c["alt"] = None
+        try:
+            g = d["gen"][0]
+            _t, pprog = conv_program(g, len(c["net"].names))
+            c["float_last"] = g["float_last"]
+            if c["float_last"]:
+                m = len(c["net"].names)
+                law = marginal(program_law(pprog, m + 2, iters=1), m)
+                q = c["q"]
+                pe = sum(p for a, p in law.items() if all(a[v] == x for v, x in q["evidence"]))
+                if pe != 0:
+                    if q["type"] == "exact":
+                        num = sum(p * a[q["target"]] ** q["power"] for a, p in law.items()
+                                  if all(a[v] == x for v, x in q["evidence"]))
+                        c["alt"] = (pe, num / pe)
+                    else:
+                        c["alt"] = (pe, 1 / pe)
+        except Exception:  # noqa  (shape problems are reported by the correspondence part)
+            pass
+
+    def closed_ok(val, nsym, qe):
+        def closed(k):
+            x = sum(((1 - qe) ** i for i in range(k + 1)), Fraction(0))
+            return sp.Rational(x.numerator, x.denominator)
+        return all(sp.simplify(val.subs(nsym, k) - closed(k)) == 0 for k in range(1, 6))
+
+    def float_finding(c, rp, raw, what):
+        fl = c["float_last"][0]
+        newv = ctx.violation(
+            "implicit-last:float-subtraction", dict(rp, float_last=c["float_last"][:3]),
+            f"{what}: the generated choice with probabilities {fl['choice'][:-1]} gets the implicit last probability "
+            f"{fl['choice'][-1]} instead of {fl['implicit_last_should_be']} (float subtraction in Polar's parser)")
+        if not newv:
+            ctx.coverage["discharged"] += 1
+
+    stats = {"exact_ok": 0, "sample_limit_missing": 0, "timeouts": 0, "float_residue_cases": 0}
     for c, r in zip(cases, results):
         q = c["q"]
         ctx.count({"t": c["text"], "q": q["q"], "e2e": q["type"]}, nontrivial=True)
@@ -723,39 +765,44 @@ def end_to_end(ctx):
             ctx.violation(f"e2e:{q['type']}:no-result-line", dict(rp, stdout=r["stdout"][-1500:]),
                           "no result line printed", no_input=True)
             continue
+        if c["float_last"]:
+            stats["float_residue_cases"] += 1
         free = {str(s) for s in val.free_symbols}
+        opt = "--exact_inference" if q["type"] == "exact" else "--sample_time_until"
+        truth = "enumeration of the joint law gives" if q["type"] == "exact" else "1/P(evidence) ="
         if not free:
             got = sp.nsimplify(val)
-            if got.is_Rational and Fraction(int(got.p), int(got.q)) == c["want"]:
+            gotf = Fraction(int(got.p), int(got.q)) if got.is_Rational else None
+            if gotf == c["want"]:
                 ctx.coverage["discharged"] += 1
                 if q["type"] == "exact":
                     stats["exact_ok"] += 1
                 ctx.sample({"bif": c["text"], "query": q["q"], "printed": raw, "enumeration": str(c["want"])}, limit=5)
+            elif gotf is not None and c["alt"] is not None and gotf == c["alt"][1] and \
+                    abs(gotf - c["want"]) < Fraction(1, 10 ** 9):
+                float_finding(c, rp, raw, f"{opt} \"{q['q']}\" prints {raw}; {truth} {c['want']}")
             else:
-                what = (f"--exact_inference \"{q['q']}\" prints {raw}; enumeration of the joint law gives {c['want']}"
-                        if q["type"] == "exact" else
-                        f"--sample_time_until \"{q['q']}\" prints {raw}; 1/P(evidence) = {c['want']}")
-                ctx.violation(f"e2e:{q['type']}:value", rp, what)
+                ctx.violation(f"e2e:{q['type']}:value", rp, f"{opt} \"{q['q']}\" prints {raw}; {truth} {c['want']}")
             continue
         if q["type"] == "sample" and free == {"n"}:
             # the defect of cli.common.transform_to_after_loop: E[count]_n printed instead of its limit.
             nsym = list(val.free_symbols)[0]
-            qe = c["pe"]
-
-            def closed(k):
-                x = sum(((1 - qe) ** i for i in range(k + 1)), Fraction(0))
-                return sp.Rational(x.numerator, x.denominator)
-            good = all(sp.simplify(val.subs(nsym, k) - closed(k)) == 0 for k in range(1, 6))
-            if good:
+            exact_q = closed_ok(val, nsym, c["pe"])
+            float_q = (not exact_q) and c["alt"] is not None and closed_ok(val, nsym, c["alt"][0])
+            if exact_q or float_q:
                 stats["sample_limit_missing"] += 1
                 new = ctx.violation(
                     "sample_time_until:limit-not-taken",
                     dict(rp, note="printed expression equals E[count]_n = sum_{i<=n} (1-q)^i for n=1..5; its limit "
-                                  "1/q (theorem C15_sampling_time_limit) is what the action claims to print"),
+                                  "1/q (theorem C15_sampling_time_program) is what the action claims to print"),
                     f"--sample_time_until \"{q['q']}\" prints the n-dependent {raw} instead of the number "
                     f"1/P(evidence) = {c['want']}")
                 if not new:
                     ctx.coverage["discharged"] += 1
+                if float_q:
+                    ctx.coverage["obligations"] += 1
+                    float_finding(c, rp, raw, f"--sample_time_until \"{q['q']}\": E[count]_n is computed with "
+                                              f"P(evidence) = {c['alt'][0]} instead of {c['pe']}")
                 continue
         ctx.violation(f"e2e:{q['type']}:value", rp,
                       f"the {q['type']} query prints {raw}; expected {c['want']}")
